@@ -8,8 +8,11 @@ error (C20_accepted_or_item_or_order_error); every tomography class accepts exac
 the outcome; tomography classes: accepted or not).  When it differs, the model of the code as it was BEFORE the repairs
 (Model/C20_PreFix.v, ops c20.validate0 / c20.tomo0) is consulted on that one input: if the implementation behaves exactly
 like the old code, the violation gets the specific signature of the recorded defect (findings C20-2 / C20-1).
-Translator tie (regen_validators): gen/c20_py2coq.py + coq/gen/C20_Equiv.v re-prove on every run that _validate_schedule_item,
-_validate_schedule_order and the four class guards, regenerated from the current source, agree with the model."""
+Translator tie (regen_validators): gen/c20_py2coq.py + coq/gen/C20_Equiv.v re-prove on every run that the anchored code,
+regenerated from the current source, agrees with the model: _validate_schedule_item, _validate_schedule_order, _validate_schedules
+(loop + try/except), Experiment.__init__, the five setters, _validate_schedule_index, calc_prob_dist (skeleton),
+_validate_schedules_str, the four class guards and the schedule prologue ("all" expansion, Experiment(...), guard) of the four
+tomography constructors.  When the tie is broken the sub-checks run with widened sweeps (ctx.boost) to find a failing input."""
 import collections
 import itertools
 import json
@@ -280,6 +283,16 @@ def label_of(mod):
     return c
 
 
+def _q(ctx):
+    """quick-tier sizes — unless the translator tie is broken (ctx.boost): then every sub-check except the big `schedule`
+    sweep runs with its thorough-tier sizes, to find a concrete failing input for the behaviour change"""
+    return ctx.quick and not getattr(ctx, "boost", False)
+
+
+def _n(ctx, quick, thorough):
+    return quick if _q(ctx) else thorough
+
+
 def prep(ctx):
     if not hasattr(ctx, "pos_mismatch"):
         ctx.pos_mismatch = 0
@@ -381,7 +394,7 @@ def chk_items(ctx, case):
 def sub_items(ctx):
     rng = ctx.rng
     cases = []
-    for masks in all_size_masks(rng, sizes=(0, 1, 2, 3) if not ctx.quick else (0, 1, 3)):
+    for masks in all_size_masks(rng, sizes=(0, 1, 2, 3) if not _q(ctx) else (0, 1, 3)):
         cases.append({"masks": masks})
     # objdict path: the lists passed in objdict must be the ones consulted, not the experiment's own
     sizes = [(0, 0, 0, 0), (1, 1, 1, 1), (2, 0, 1, 3), (3, 2, 0, 0), (1, 3, 2, 1), (0, 1, 0, 2)]
@@ -472,10 +485,13 @@ def sub_schedule(ctx):
             cases.append({"masks": masks, "alpha": "compact", "len": 5})
     # order rules in isolation: in-range items only (accepted / order errors), longer words
     for masks in ([[1], [1, 1], [1, 1], [1, 1]], [[0], [1, 0, 1], [0, 0], [1, 1, 1]]):
-        for L in range(2, ctx.n(5, 6) + 1):
+        for L in range(2, _n(ctx, 5, 6) + 1):
             cases.append({"masks": masks, "alpha": "inrange", "len": L})
     if not ctx.quick:
         cases.append({"masks": [[1], [1, 1], [1, 1], [1, 1]], "alpha": "inrange", "len": 7})
+    elif getattr(ctx, "boost", False):
+        for masks in big:
+            cases.append({"masks": masks, "alpha": "medium", "len": 3})
     ctx.sample("schedule", cases[3])
     ctx.run_cases("schedule", chk_schedule, cases)
     ctx.note("schedule: %d (configuration, alphabet, length) sweeps, every word enumerated" % len(cases))
@@ -523,9 +539,11 @@ def chk_lists(ctx, case):
 
 def sub_lists(ctx):
     cfgs = [[[1], [1, 1], [1], [1]], [[1], [1, 1, 0], [1, 1], [0]], [[1], [1], [], []], [[1, 1], [], [1], [1, 1]], [[], [], [], []]]
-    if not ctx.quick:
+    if not _q(ctx):
         cfgs += [[[0], [0, 0], [0], [0]], [[1], [1, 1], [], [1]], [[1], [1, 1, 1], [1], []]]
-    cases = [{"masks": m_, "len": L} for m_ in cfgs for L in ((0, 1, 2, 3) if ctx.quick else (0, 1, 2, 3, 4))]
+    cases = [{"masks": m_, "len": L} for m_ in cfgs for L in ((0, 1, 2, 3) if _q(ctx) else (0, 1, 2, 3, 4))]
+    if ctx.quick and not _q(ctx):        # boosted quick tier: the length-4 lists only for the first two configurations
+        cases = [c_ for c_ in cases if c_["len"] < 4 or c_["masks"] in cfgs[:2]]
     ctx.sample("lists", cases[2])
     ctx.run_cases("lists", chk_lists, cases)
 
@@ -628,7 +646,15 @@ def gen_setter_cases(ctx):
                 cases.append({"masks": masks, "schedules": scheds, "ops": [{"set": kind, "mask": [1] * n}]})
         for s in good + bad:
             cases.append({"masks": masks, "schedules": scheds, "ops": [{"set": "schedules", "value": [good[0], s]}]})
-    for _ in range(ctx.n(400, 4000)):
+    # exhaustive PAIRS of list setters (size relations between different lists, state after an accepted / rejected first step)
+    for masks, scheds in starts[:2]:
+        for k1 in KINDS:
+            for n1 in range(0, 4):
+                for k2 in KINDS:
+                    for n2 in range(0, 4):
+                        cases.append({"masks": masks, "schedules": scheds,
+                                      "ops": [{"set": k1, "mask": [1] * n1}, {"set": k2, "mask": [1] * n2}]})
+    for _ in range(400 if _q(ctx) else (1500 if ctx.quick else 4000)):
         masks = [rmask(1, 1), rmask(1, 3), rmask(0, 3), rmask(0, 3)]
         # start from schedules that are (mostly) accepted under masks
         cand = [s for s in good if all(isinstance(it, list) and it[1] < len(masks[KINDS.index(it[0])]) for it in s)]
@@ -711,7 +737,7 @@ def sub_exec(ctx):
     cases = []
     cfgs = [[[1], [1, 1, 1], [1, 1], [1, 1, 1]], [[0], [1, 1], [1], [1]], [[1], [1, 0, 1], [0, 1], [1, 0]], [[1], [1, 1], [], []],
             [[1], [0], [1], [1]]]
-    maxmid = ctx.n(2, 3)
+    maxmid = _n(ctx, 2, 3)
     for masks in cfgs:
         mids = [[k, i] for k in ("gate", "mprocess") for i in range(len(masks[KINDS.index(k)]))]
         for L in range(0, maxmid + 1):
@@ -822,12 +848,14 @@ def chk_tomo(ctx, case):
 
 def sub_tomo(ctx):
     cases = []
-    sizes = [(2, 2), (1, 3)] if ctx.quick else [(2, 2), (1, 3), (3, 1), (1, 1), (3, 4)]
+    sizes = [(2, 2), (1, 3)] if _q(ctx) else [(2, 2), (1, 3), (3, 1), (1, 1), (3, 4)]
     for cls in TCLS:
         for ns, np_ in sizes:
             for L in (0, 1, 2, 3):
                 cases.append({"cls": cls, "ns": ns, "np": np_, "alpha": "compact" if L == 3 else "medium", "len": L})
-            cases.append({"cls": cls, "ns": ns, "np": np_, "alpha": "tiny" if ctx.quick else "compact", "len": 4})
+            boosted = ctx.quick and not _q(ctx)      # quick tier with a broken translator tie: more sizes, same word lengths
+            big_words = (not ctx.quick) or (boosted and (ns, np_) == sizes[0])
+            cases.append({"cls": cls, "ns": ns, "np": np_, "alpha": "compact" if big_words else "tiny", "len": 4})
             if not ctx.quick:
                 cases.append({"cls": cls, "ns": ns, "np": np_, "alpha": "tiny", "len": 5})
             # str arguments and multi-schedule lists
@@ -944,13 +972,13 @@ def chk_tomo_exec(ctx, case):
 
 def sub_tomo_exec(ctx):
     cases = []
-    sizes = [(2, 2), (1, 3), (3, 4)] if ctx.quick else [(1, 1), (2, 2), (1, 3), (3, 1), (3, 4), (4, 4)]
+    sizes = [(2, 2), (1, 3), (3, 4)] if _q(ctx) else [(1, 1), (2, 2), (1, 3), (3, 1), (3, 4), (4, 4)]
     for cls in TCLS:
         for ns, np_ in sizes:
             cases.append({"cls": cls, "ns": ns, "np": np_, "schedules": "all"})
             full = shape_schedules(cls, ns, np_)
             rng = ctx.rng
-            for _ in range(ctx.n(2, 6)):
+            for _ in range(_n(ctx, 2, 6)):
                 k = rng.randint(1, min(4, len(full) + 1))
                 cases.append({"cls": cls, "ns": ns, "np": np_, "schedules": [rng.choice(full) for _ in range(k)]})
     ctx.sample("tomo_exec", cases[1])
@@ -986,9 +1014,8 @@ FNS = {"witness": chk_witness, "items": chk_items, "schedule": chk_schedule, "li
 
 def regen_validators(ctx):
     """translator tie (same protocol as flow.regen_check, with this property's own translator gen/c20_py2coq.py):
-    regenerate Gallina definitions of Experiment._validate_schedule_item, Experiment._validate_schedule_order and of the four
-    class guards from the CURRENT source, compile them, and re-check coq/gen/C20_Equiv.v (regenerated agrees with the
-    hand-written model on all inputs; transported theorems).
+    regenerate Gallina definitions of the 20 translated pieces (see gen/c20_py2coq.py) from the CURRENT source, compile them,
+    and re-check coq/gen/C20_Equiv.v (regenerated agrees with the hand-written model on all inputs; transported theorems).
     returns (ok, info)"""
     import os, shutil, subprocess, sys
     import runner
@@ -1053,7 +1080,9 @@ def run(ctx):
     ok2, info2 = regen_validators(ctx)
     if not ok2:
         ok, info = False, info2
+        ctx.boost = True          # widen the sweeps: look harder for a concrete failing input
         ctx.note("regenerated-validator obligations (coq/gen/C20_Equiv.v) not discharged: %s" % str(info2)[:400])
+        ctx.note("translator tie broken: sub-checks other than `schedule` run with their thorough-tier sizes")
     if not ok:
         ctx.discharged = min(ctx.discharged, ctx.obligations - 1)
     for name, fn in SUBS:
